@@ -561,6 +561,7 @@ package lang
 //@   ensures[C05] unary-plus: expr.OpToken.Tag == Plus && err == nil ==> result0.Value.Tag == ValueNum && same(*result0.Value.Num, $numL)
 //@   ensures[C05] negate: expr.OpToken.Tag == Minus && err == nil ==> result0.Value.Tag == ValueNum && same(*result0.Value.Num, -$numL)
 //@   ensures[C05] postfix-yields-old-value: (expr.OpToken.Tag == PlusPlus || expr.OpToken.Tag == MinusMinus) && expr.Postfix && err == nil ==> result0.Value.Tag == ValueNum && same(*result0.Value.Num, $numL)
+//@   ensures[C05] prefix-yields-new-value: (expr.OpToken.Tag == PlusPlus || expr.OpToken.Tag == MinusMinus) && !expr.Postfix && err == nil ==> result0.Value.Tag == ValueNum && same(*result0.Value.Num, (expr.OpToken.Tag == PlusPlus ? $numL + 1.0 : $numL - 1.0))
 //@   assert[C05] incr-stores-plus-one: expr.OpToken.Tag == PlusPlus ==> arg3.Value.Tag == ValueNum && same(*arg3.Value.Num, $numL + 1.0) && arg2 == $L @ Evaluator.evalAssignment
 //@   assert[C05] decr-stores-minus-one: expr.OpToken.Tag == MinusMinus ==> arg3.Value.Tag == ValueNum && same(*arg3.Value.Num, $numL - 1.0) && arg2 == $L @ Evaluator.evalAssignment
 //@   ensures[C05] one-operand-evaluation: $n == 1
